@@ -3,6 +3,7 @@ package main
 import (
 	"bytes"
 	"fmt"
+	"reflect"
 	"regexp"
 	"strings"
 
@@ -18,6 +19,7 @@ func init() {
 	vlib.Register("C06", "roundtrip", c06Roundtrip)
 	vlib.Register("C06", "stacks", c06Stacks)
 	vlib.Register("C07", "buffers", c07Buffers)
+	vlib.Register("C07", "fields", c07Fields)
 }
 
 var optsAll = []gopacket.SerializeOptions{{}, {FixLengths: true}, {ComputeChecksums: true}, {FixLengths: true, ComputeChecksums: true}}
@@ -687,5 +689,240 @@ func c07Check(c *vlib.Ctx, r *vlib.Rand, it c06Item, how string) {
 	}
 	if c.WantSample() {
 		c.Sample(map[string]any{"layer": it.t.String(), "buffer_histories": "fresh, pre-sized(x,y), pre-sized(0,0), dirty, poison 0xA5, poison 0x5A, same struct twice", "payload_len": len(it.payload)})
+	}
+}
+
+// ---- C07 fields: layer values built through public fields ----------------------------------------------------------------
+
+// mutateFields changes up to k exported fields of the layer (at any depth) in a way determined by seed only, so that
+// the same mutation can be applied to several independent copies. It returns a description of what was changed.
+func mutateFields(l any, seed uint64, k int) []string {
+	r := vlib.NewRand(seed)
+	var slots []reflect.Value
+	var names []string
+	var walk func(v reflect.Value, path string, depth int)
+	walk = func(v reflect.Value, path string, depth int) {
+		if depth > 6 || len(slots) > 400 {
+			return
+		}
+		switch v.Kind() {
+		case reflect.Ptr:
+			if v.CanSet() {
+				slots, names = append(slots, v), append(names, path)
+			}
+			if !v.IsNil() {
+				walk(v.Elem(), path, depth+1)
+			}
+		case reflect.Struct:
+			for i := 0; i < v.NumField(); i++ {
+				f := v.Type().Field(i)
+				if f.PkgPath != "" {
+					continue
+				}
+				walk(v.Field(i), path+"."+f.Name, depth+1)
+			}
+		case reflect.Slice:
+			if v.CanSet() {
+				slots, names = append(slots, v), append(names, path)
+			}
+			if v.Type().Elem().Kind() != reflect.Uint8 {
+				for i := 0; i < v.Len() && i < 8; i++ {
+					walk(v.Index(i), fmt.Sprintf("%s[%d]", path, i), depth+1)
+				}
+			}
+		case reflect.Array:
+			if v.Type().Elem().Kind() != reflect.Uint8 {
+				for i := 0; i < v.Len() && i < 8; i++ {
+					walk(v.Index(i), fmt.Sprintf("%s[%d]", path, i), depth+1)
+				}
+			} else if v.CanSet() {
+				slots, names = append(slots, v), append(names, path)
+			}
+		case reflect.Bool, reflect.Int, reflect.Int8, reflect.Int16, reflect.Int32, reflect.Int64,
+			reflect.Uint, reflect.Uint8, reflect.Uint16, reflect.Uint32, reflect.Uint64, reflect.String:
+			if v.CanSet() {
+				slots, names = append(slots, v), append(names, path)
+			}
+		}
+	}
+	rv := reflect.ValueOf(l)
+	if rv.Kind() != reflect.Ptr || rv.IsNil() {
+		return nil
+	}
+	walk(rv.Elem(), "", 0)
+	if len(slots) == 0 {
+		return nil
+	}
+	var done []string
+	for ; k > 0; k-- {
+		i := r.Intn(len(slots))
+		v := slots[i]
+		what := ""
+		switch v.Kind() {
+		case reflect.Bool:
+			v.SetBool(!v.Bool())
+			what = "flipped"
+		case reflect.Int, reflect.Int8, reflect.Int16, reflect.Int32, reflect.Int64:
+			x := []int64{0, 1, -1, int64(r.U64() >> 1), -int64(r.U64() >> 1), int64(r.Intn(70000))}[r.Intn(6)]
+			v.SetInt(x)
+			what = fmt.Sprint("=", v.Int())
+		case reflect.Uint, reflect.Uint8, reflect.Uint16, reflect.Uint32, reflect.Uint64:
+			x := []uint64{0, 1, ^uint64(0), r.U64(), uint64(r.Intn(70000)), uint64(r.Intn(300))}[r.Intn(6)]
+			v.SetUint(x)
+			what = fmt.Sprint("=", v.Uint())
+		case reflect.String:
+			v.SetString(string(r.Bytes(r.Intn(300))))
+			what = "random string"
+		case reflect.Ptr:
+			if !v.IsNil() {
+				v.Set(reflect.Zero(v.Type()))
+				what = "=nil"
+			} else {
+				v.Set(reflect.New(v.Type().Elem()))
+				what = "=new zero value"
+			}
+		case reflect.Array:
+			for j := 0; j < v.Len(); j++ {
+				v.Index(j).SetUint(uint64(r.Intn(256)))
+			}
+			what = "random bytes"
+		case reflect.Slice:
+			n := v.Len()
+			switch op := r.Intn(6); {
+			case op == 0:
+				v.Set(reflect.Zero(v.Type()))
+				what = "=nil"
+			case op == 1 && n > 0:
+				v.Set(v.Slice(0, n-1))
+				what = "shortened by one"
+			case op == 2 && n > 0:
+				v.Set(v.Slice(0, r.Intn(n)))
+				what = fmt.Sprint("cut to ", v.Len())
+			case op == 3 && n > 0:
+				v.Set(reflect.AppendSlice(v.Slice(0, n), v.Slice(0, n)))
+				what = "doubled"
+			default:
+				m := []int{1, 3, 7, 40, 255, 256, 300, 70000}[r.Intn(8)]
+				if v.Type().Elem().Kind() != reflect.Uint8 {
+					m = []int{1, 2, 9, 70}[r.Intn(4)]
+				}
+				nv := reflect.MakeSlice(v.Type(), m, m)
+				if v.Type().Elem().Kind() == reflect.Uint8 {
+					for j := 0; j < m; j++ {
+						nv.Index(j).SetUint(uint64(r.Intn(256)))
+					}
+				}
+				v.Set(nv)
+				what = fmt.Sprint("replaced by ", m, " elements")
+			}
+		}
+		done = append(done, names[i]+" "+what)
+	}
+	return done
+}
+
+func c07Fields(c *vlib.Ctx) {
+	cp := getCorpus()
+	perType := c.Pick(100, 2500)
+	idx := 0
+	for ti, t := range cp.Types {
+		if ti%c.NBatch != c.Batch {
+			continue
+		}
+		chunk := 50
+		for k := 0; k < perType; k += chunk {
+			idx++
+			if !c.Begin(idx) {
+				continue
+			}
+			r := c.Rand(uint64(t), uint64(k), 77)
+			for j := 0; j < chunk; j++ {
+				b, how := cp.Input(r, t)
+				if len(b) > 4096 {
+					b = b[:4096]
+				}
+				for _, it := range c06Harvest(b, t, false) {
+					c07FieldsCheck(c, r, it, how)
+				}
+			}
+			c.End()
+		}
+	}
+}
+
+func c07FieldsCheck(c *vlib.Ctx, r *vlib.Rand, it c06Item, how string) {
+	tk := typeKey(it.t)
+	seed := r.U64()
+	k := r.Range(1, 3)
+	o := optsAll[r.Intn(4)]
+	payload := it.payload
+	if r.Chance(1, 4) {
+		payload = r.Bytes([]int{0, 1, 3, 1473, 65535, 65536, 70001}[r.Intn(7)])
+	}
+	var changed []string
+	mk := func() gopacket.SerializableLayer {
+		l := it.fresh()
+		changed = mutateFields(l, seed, k)
+		return l
+	}
+	det := func() map[string]any {
+		return map[string]any{"layer": it.t.String(), "decoded_as": it.first.String(), "source_packet_hex": hx(it.src), "mutation": how, "payload_len": len(payload), "options": soString(o), "fields_changed": changed, "field_seed": seed, "field_changes": k}
+	}
+	type res struct {
+		name string
+		out  []byte
+		err  error
+	}
+	var rs []res
+	for _, bk := range []string{"fresh", "dirty", "poison-a5", "poison-5a"} {
+		var buf gopacket.SerializeBuffer
+		switch bk {
+		case "fresh":
+			buf = gopacket.NewSerializeBuffer()
+		case "dirty":
+			buf = dirtyBuffer()
+		case "poison-a5":
+			buf = newPoison(0xA5)
+		default:
+			buf = newPoison(0x5A)
+		}
+		l := mk()
+		if ns, ok := l.(netSetter); ok && it.nl != nil {
+			ns.SetNetworkLayerForChecksum(it.nl)
+		}
+		var out []byte
+		var err error
+		pi := vlib.Guard(func() {
+			err = gopacket.SerializeLayers(buf, o, l, gopacket.Payload(payload))
+			if err == nil {
+				out = append([]byte{}, buf.Bytes()...)
+			}
+		})
+		c.Evals(1)
+		if pi != nil {
+			c.Violation("constructed:"+pi.Key, fmt.Sprintf("serializing a %s whose public fields were changed (%s; %s) panicked at %s:%d: %s", it.t, strings.Join(changed, "; "), soString(o), pi.File, pi.Line, pi.Value), det())
+			return
+		}
+		rs = append(rs, res{bk, out, err})
+	}
+	for _, x := range rs[1:] {
+		if (x.err == nil) != (rs[0].err == nil) {
+			c.Violation("constructed:error-depends-on-buffer:"+tk, fmt.Sprintf("%s with changed fields (%s): the %s buffer gives err=%v, a fresh buffer err=%v", it.t, strings.Join(changed, "; "), x.name, x.err, rs[0].err), det())
+			return
+		}
+		if x.err == nil && !bytes.Equal(x.out, rs[0].out) {
+			c.Violation("constructed:output-contains-unwritten-bytes:"+tk, fmt.Sprintf("%s with changed fields (%s; %s): output with the %s buffer differs from a fresh buffer at byte %d of %d", it.t, strings.Join(changed, "; "), soString(o), x.name, firstDiff(x.out, rs[0].out), len(rs[0].out)), det())
+			return
+		}
+	}
+	if rs[0].err == nil {
+		c.Count("constructed_values_serialized", 1)
+		c.NonTrivial(vlib.Mix(uint64(it.t), seed, vlib.HashBytes(rs[0].out)))
+	} else {
+		c.Count("constructed_values_rejected_with_error", 1)
+	}
+	c.CountIn("constructed_values_per_type", tk, 1)
+	if c.WantSample() {
+		c.Sample(map[string]any{"layer": it.t.String(), "fields_changed": changed, "result": map[bool]string{true: "bytes", false: "error"}[rs[0].err == nil]})
 	}
 }
